@@ -195,6 +195,15 @@ CLAIMS["C07"] = dict(
         "line/column inside the text, both entry points identical.",
    design="6/C07", technique="Coq line-table theorems (instances of C14) + token-edit sweep through both entry points",
    note="Known findings: backslash-only continuation line (KeyError, string mode); bytes/str literal concatenation (TypeError).")
+CLAIMS["C09"] = dict(
+   text="Three ties plus a sweep. K-read: the runtime model (Runtime/Exec.v) running the generator model's IR of "
+        "metagrammar.gram, with the meta-grammar's actions evaluated by the MiniPy model, builds inside Coq the same grammar "
+        "value as the shipped GrammarParser (rules, alternatives, items, operators, names, types, actions, metas, memo) on "
+        "every explored text and on its printed form; K-print (C18's printer model) equals str() for both SIMPLE_STR "
+        "settings; on the implementation every text is read, printed with SIMPLE_STR off, re-read and compared modulo "
+        "redundant parentheses. Coq (Props/C09.v): the printer writes the postfix optional only for atoms, for every item.",
+   design="6/C09", technique="Coq runtime+generator+MiniPy model of the meta-parser evaluated in Coq against GrammarParser + printer model + round-trip sweep",
+   note="Partial: the universal round-trip theorem (read(print g) = g modulo parentheses for every readable g) is not proved.")
 NOT_YET = {}
 NOT_APPLICABLE = {
  "C06": "equates the generated parser with CPython's own C parser/ast.parse, for which no executable model exists "
